@@ -859,6 +859,39 @@ func c15Record(env *Env) {
 		}
 	}
 
+	// one search on sequences in which a 4-mer occurs more than 255 times (long homopolymer): the shared 4-mer
+	// counts that order and prune the candidates must not wrap
+	{
+		left, right := g.seq(14), g.seq(16)
+		left[len(left)-1], right[0] = 'c', 'g' // the run of a's is exactly n long: the query holds 255 times "aaaa", `near` 256 times
+		poly := func(n int) []byte {
+			b := append([]byte(nil), left...)
+			for i := 0; i < n; i++ {
+				b = append(b, 'a')
+			}
+			return append(b, right...)
+		}
+		q := poly(258)
+		near := poly(259)
+		far := poly(258)
+		for _, p := range []int{2, 7, len(far) - 3} {
+			far[p] = "cgt"[g.rng.Intn(3)]
+			if far[p] == q[p] {
+				far[p] = 'c'
+				if q[p] == 'c' {
+					far[p] = 'g'
+				}
+			}
+		}
+		refs := [][]byte{far, g.seq(280), near, g.seq(300)}
+		g.shuffle(refs, nil)
+		ev := c15NewEvent("closest", "counter-width")
+		ev.Fn, ev.Alpha = "obitag", "acgt"
+		ev.Q, ev.Refs = c15Split(q), c15SplitAll(refs)
+		c15RunClosest(ev, q, refs)
+		env.emit(ev)
+	}
+
 	// ---- indexes -------------------------------------------------------------------------
 	for e := 0; e < nIndex; e++ {
 		n := idxRefs/2 + g.rng.Intn(idxRefs/2+1)
